@@ -249,6 +249,9 @@ func init() {
 			if cs.What == "missing" {
 				bad, ok = "missing", true // the named template does not exist at all
 			}
+			if cs.What == "loaderr" {
+				bad, ok = "fine", true // a loadable template whose load fails
+			}
 			if !ok {
 				return nil
 			}
@@ -267,8 +270,13 @@ func init() {
 			if loader == "" {
 				loader = "memory"
 			}
-			r := c.SB.Do(&sb.Req{Op: "exec", Env: "core", Loader: loader, Templates: tpls, Entry: entry})
-			c.Ev.Count("name\x00"+cs.Via+loader+bad, true, "kind:name", "via:"+cs.Via, "loader:"+loader)
+			req := &sb.Req{Op: "exec", Env: "core", Loader: loader, Templates: tpls, Entry: entry}
+			if cs.What == "loaderr" {
+				// the load of the named template is the first (direct) or second one
+				req.LoadFailAt = map[bool]int{true: 1, false: 2}[cs.Via == "direct"]
+			}
+			r := c.SB.Do(req)
+			c.Ev.Count("name\x00"+cs.Via+loader+bad, true, "kind:name", "via:"+cs.Via, "loader:"+loader, "what:"+strings.SplitN(cs.What, ":", 2)[0])
 			if r.Fatal() || r.Status == "infra" {
 				return fatalFail(r)
 			}
@@ -423,8 +431,11 @@ func init() {
 			}
 			if rapid.Bool().Draw(t, "brokenkind") {
 				cs.What = "broken:" + strconv.Itoa(rapid.IntRange(0, len(c17Broken)-1).Draw(t, "bk"))
-			} else if rapid.IntRange(0, 4).Draw(t, "missingkind") == 0 {
+			} else if k := rapid.IntRange(0, 5).Draw(t, "missingkind"); k == 0 {
 				cs.What = "missing"
+			} else if k == 1 {
+				// the loader itself fails, with an error that does not mention the name
+				cs.What = "loaderr"
 			}
 			return cs
 		})
